@@ -585,6 +585,57 @@ DiffObj(a, b) ==
      ELSE IF a.module = <<>> THEN <<>> ELSE Sub("module:" \o a.module[1].mtype \o ".", DiffModule(a.module[1], b.module[1]))
   ELSE <<>>
 
+(* ============================================================================ *)
+(*     structural rules of every written stream (C03), each named separately     *)
+(* ============================================================================ *)
+(* a fold over the chunks that tracks the open section and collects the names of violated rules *)
+St0 == [mode |-> "top", bad |-> {}, ncval |-> 0, cmid |-> -1, chnk |-> -1, maxchnm |-> -1, lastchnm |-> -1, mtype |-> "",
+        pdta |-> -1, plin |-> 32, pchn |-> 4, udc |-> 0, first |-> TRUE]
+RECURSIVE StructFold(_, _), StructBad(_)
+ExpectedCvals(s) == IF s.mtype \in SpecTypes THEN Len(Ctls(s.mtype)) + (IF s.mtype = "MetaModule" THEN s.udc ELSE 0) ELSE 0
+CloseModule(s) ==
+  LET b1 == IF s.ncval # ExpectedCvals(s) THEN {"cval-count-differs-from-attached-controllers"} ELSE {}
+      b2 == IF s.ncval > 0 /\ s.cmid # 8 * s.ncval THEN {"cmid-not-8-bytes-per-value"} ELSE {}
+      b3 == IF s.maxchnm >= 0 /\ s.maxchnm >= s.chnk THEN {"chnm-not-below-chnk"} ELSE {} IN
+  [s EXCEPT !.bad = @ \cup b1 \cup b2 \cup b3, !.mode = "body"]
+StructStep(s, c) ==
+  LET id == c.id  d == c.data
+      s1 == IF s.first THEN [s EXCEPT !.first = FALSE,
+                                      !.bad = IF id \in {"SVOX", "SSYN"} /\ d = <<>> THEN @ ELSE @ \cup {"header-chunk-not-first"},
+                                      !.mode = "body"] ELSE s IN
+  IF s.first THEN s1 ELSE
+  CASE s.mode = "body" /\ id = "PDTA" -> [s EXCEPT !.mode = "pattern", !.pdta = Len(d), !.plin = 32, !.pchn = 4]
+    [] s.mode = "body" /\ id = "PPAR" -> [s EXCEPT !.mode = "clone"]
+    [] s.mode = "body" /\ id = "SFFF" -> [s EXCEPT !.mode = "module", !.ncval = 0, !.cmid = -1, !.chnk = -1, !.maxchnm = -1,
+                                                   !.lastchnm = -1, !.mtype = "Output", !.udc = 0]
+    [] s.mode = "pattern" /\ id = "PLIN" -> [s EXCEPT !.plin = DecI32(d)]
+    [] s.mode = "pattern" /\ id = "PCHN" -> [s EXCEPT !.pchn = DecI32(d)]
+    [] s.mode = "pattern" /\ id = "PEND" -> [s EXCEPT !.mode = "body",
+                                                !.bad = IF s.pdta = s.plin * s.pchn * 8 THEN @ ELSE @ \cup {"pdta-not-lines-x-tracks-x-8"}]
+    [] s.mode = "clone" /\ id = "PEND" -> [s EXCEPT !.mode = "body"]
+    [] s.mode = "module" /\ id = "SNAM" -> [s EXCEPT !.bad = IF Len(d) = 32 THEN @ ELSE @ \cup {"snam-not-32-bytes"}]
+    [] s.mode = "module" /\ id = "STYP" -> [s EXCEPT !.mtype = TypeOfBytes(Cut0(d))]
+    [] s.mode = "module" /\ id = "CVAL" -> [s EXCEPT !.ncval = @ + 1, !.bad = IF Len(d) = 4 THEN @ ELSE @ \cup {"cval-not-4-bytes"}]
+    [] s.mode = "module" /\ id = "CMID" -> [s EXCEPT !.cmid = Len(d)]
+    [] s.mode = "module" /\ id = "CHNK" -> [s EXCEPT !.chnk = DecI32(d)]
+    [] s.mode = "module" /\ id = "CHNM" -> [s EXCEPT !.lastchnm = DecI32(d), !.maxchnm = IF DecI32(d) > @ THEN DecI32(d) ELSE @,
+                                                    !.bad = IF s.chnk < 0 THEN @ \cup {"chnm-without-chnk"} ELSE @]
+    [] s.mode = "module" /\ id = "CHDT" ->
+         LET rec == IF s.mtype = "Sampler" /\ ~c.isn THEN
+                      (IF s.lastchnm = 0 /\ Len(d) # 400 THEN {"sampler-header-not-400-bytes"} ELSE {})
+                      \cup (IF s.lastchnm >= 1 /\ s.lastchnm <= 255 /\ s.lastchnm % 2 = 1 /\ Len(d) # 44 THEN {"sample-record-not-44-bytes"} ELSE {})
+                      \cup (IF s.lastchnm >= 258 /\ s.lastchnm <= 264 /\ (Len(d) < 20 \/ Len(d) # 20 + 4 * DecU16(Slice(d, 8, 2)))
+                            THEN {"envelope-not-0x14-plus-4-per-point"} ELSE {})
+                    ELSE {}
+             nest == IF c.isn THEN StructBad(c.nested) ELSE {} IN
+         [s EXCEPT !.bad = @ \cup rec \cup nest,
+                   !.udc = IF s.mtype = "MetaModule" /\ s.lastchnm = 2 /\ Len(d) >= 1 THEN d[1] ELSE @]
+    [] s.mode = "module" /\ id = "SEND" -> CloseModule(s)
+    [] OTHER -> s
+StructFold(s, cs) == FoldLeft(StructStep, s, cs)
+StructBad(cs) == LET s == StructFold(St0, cs) IN
+                 s.bad \cup (IF s.mode \in {"body", "top"} THEN {} ELSE {"unterminated-" \o s.mode \o "-slot"})
+
 (* does the object contain an instrument in the replayed legacy layout?  Its bytes are not a   *)
 (* function of the public state, so Write does not apply to it (see known finding on C06/C16)  *)
 RECURSIVE HasLegacy(_)
